@@ -198,7 +198,7 @@ class Normalizer:
             o["a"] = sp
             o["key"] = e["key"]
             o["rec"] = {"inl": e["inl"], "local": e["local"], "wild": e["wild"], "line": e["sline"],
-                        "checked": e["checked"], "matched": e["matched"]}
+                        "checked": e["checked"], "matched": e["matched"], "id": e["sid"], "file": e["sfile"]}
             o["checked"] = e["checked"]
             o["matched"] = e["matched"]
             if n == "SupprAdd":
